@@ -383,6 +383,58 @@ def discharge(b, i, kind, detail, t, defs, cmps, dom):
     return None
 
 
+GUARDISH = re.compile(r'^(call:.*(::len|is_empty|remaining|has_remaining|checked_\w+|key_size|block_size|nonce_size|tag_size|iv_size|digest_size|fixed_encoding_len|write_len|::get|::first|::last|split_first|split_last|try_into|try_from|position|::min)$'
+                      r'|op:(Lt|Le|Gt|Ge)$|op:Len$|len$)')
+ROOTISH = re.compile(r'^(field:|param:)')
+RATCHET_KINDS = re.compile(r'^(index\[|copy_from_slice|split_at|split_to|split_off|advance|truncate|from_slice|remove|insert|get_u|put_slice|BoundsCheck|Overflow\(Sub\)|DivisionByZero|RemainderByZero)')
+
+
+def related_guards(b, i, t, dom=None):
+    """Number of switches on every path to site block i (entry-dominating) that have an edge which cannot reach i, whose
+    condition is length-like / an ordering comparison and shares a root (parameter or field) with the operands of the site.
+    Used as a ratchet for baseline sites: a reviewed site must not lose a related dominating guard."""
+    ops = list(t.get('args') or []) + list(t.get('o') or [])
+    so = set()
+    for o in ops:
+        so |= set(x for x in b.operand_origins(o) if ROOTISH.match(x))
+    if b.r.get('impl_self') and any(x.startswith('field:') for x in so):
+        so.discard('param:1')      # `self`: relate through the field, not through the receiver as a whole
+    if not so:
+        return 0
+    can = b.can_reach({i})
+    n = 0
+    for g, tt in b.switches():
+        if g == i or g not in can:
+            continue
+        if all(j in can for j, _ in b.succ(g)):
+            continue
+        # every path from entry to i passes g  <=>  i unreachable once g is removed
+        if b.find_path(0, {i}, removed=frozenset([g])) is not None:
+            continue
+        og = b.switch_origins(g)
+        if not any(GUARDISH.match(x) for x in og):
+            continue
+        if so & set(x for x in og if ROOTISH.match(x)):
+            n += 1
+    return n
+
+
+def load_baseline_guards():
+    out = {}
+    try:
+        for line in open(BASELINE):
+            line = line.rstrip('\n')
+            if not line or line.startswith('#'):
+                continue
+            parts = line.split(' || ')
+            for x in parts[2:]:
+                if x.startswith('guards>='):
+                    out[parts[0]] = int(x[8:])
+    except FileNotFoundError:
+        pass
+    return out
+
+
 def load_baseline():
     base = {}
     try:
@@ -390,8 +442,8 @@ def load_baseline():
             line = line.rstrip('\n')
             if not line or line.startswith('#'):
                 continue
-            key, _, cls = line.partition(' || ')
-            base[key] = cls
+            parts = line.split(' || ')
+            base[parts[0]] = parts[1] if len(parts) > 1 else ''
     except FileNotFoundError:
         pass
     return base
